@@ -125,7 +125,7 @@ def const_locals(f):
     for n in f.walk():
         if n["k"] == "VarDecl" and n.get("st") == "local" and not n.get("ref"):
             cs = kids(n)
-            if len(cs) == 1 and n["d"] not in assigned and n.get("const"):
+            if len(cs) == 1 and n.get("const"):
                 out[n["d"]] = cs[0]
     return out
 
@@ -173,3 +173,8 @@ def mentions(n, pred):
             return True
         stack.extend(x.get("c", ()))
     return False
+
+
+def re_strip(s):
+    import re
+    return re.sub(r"#\d+", "", s)
